@@ -117,15 +117,16 @@ loop:
 		switch u & (1<<childrenBitsNodeType - 1) {
 		case nodeTypeNormal:
 			suffix = 1 + dot
+			icann = icannNode
 		case nodeTypeException:
 			suffix = 1 + len(s)
+			icann = icannNode
 			break loop
 		}
+		// A node that is only the parent of other rules is not a rule itself
+		// and must not change the ICANN flag of the prevailing rule.
 		u >>= childrenBitsNodeType
 		wildcard = u&(1<<childrenBitsWildcard-1) != 0
-		if !wildcard {
-			icann = icannNode
-		}
 
 		if dot == -1 {
 			break
